@@ -5,7 +5,8 @@ import (
 	"strings"
 )
 
-// ensurePort adds a port to an address if none are provided.
+// ensurePort adds a port to an address if none are provided; a trailing ':' with nothing
+// after it ("host:", "[::1]:") provides none.
 // It handles both IPV4 and IPV6 addresses.
 func ensurePort(addr string, port int) string {
 	// This is an IPV6 address literal
@@ -13,6 +14,10 @@ func ensurePort(addr string, port int) string {
 		// if address has no port (behind his ipv6 address) - add default port
 		if strings.LastIndex(addr, ":") <= strings.LastIndex(addr, "]") {
 			return addr + ":" + strconv.Itoa(port)
+		}
+		// an empty port ("[::1]:") is no port
+		if strings.HasSuffix(addr, ":") {
+			return addr + strconv.Itoa(port)
 		}
 		return addr
 	}
@@ -23,7 +28,10 @@ func ensurePort(addr string, port int) string {
 		// This is IPV4 without port
 		return addr + ":" + strconv.Itoa(port)
 	case 1:
-		// This is IPV6 with port
+		// This is host:port; an empty port ("host:") is no port
+		if strings.HasSuffix(addr, ":") {
+			return addr + strconv.Itoa(port)
+		}
 		return addr
 	default:
 		// This is IPV6 without port, as you need to use bracket with port in IPV6
